@@ -200,7 +200,7 @@ def strand_semantics(repo: Repo, rep: Report) -> None:
         try:
             bad = None
             total = 0
-            for H, W in ((1, 1), (1, 2), (2, 2)):
+            for H, W in ((1, 1), (1, 2), (2, 1), (2, 2)):  # wide and tall lattices: the node numbering uses width as the row stride
                 inst = Instance(repo)
                 fr = inst.w.cw.new("BoolGridFrame", inst.s, H, W)
                 captured: List[Any] = []
@@ -318,7 +318,7 @@ def strand_semantics(repo: Repo, rep: Report) -> None:
             if bad:
                 rep.finding("SPLIT", GRAPH, "active_edges_connected_crossable", f"split graph single_cycle={single_cycle}", bad)
             else:
-                rep.ok("SPLIT", f"single_cycle={single_cycle}: {total} degree-admissible segment subsets of the 1x1, 1x2, 2x2 frames: split-graph connectivity == one strand", points=total)
+                rep.ok("SPLIT", f"single_cycle={single_cycle}: {total} degree-admissible segment subsets of the 1x1, 1x2, 2x1, 2x2 frames: split-graph connectivity == one strand", points=total)
         except Undecided as ex:
             rep.undecide("SPLIT", str(ex))
         except (Raised, IndexOutOfRange) as ex:
